@@ -18,6 +18,8 @@ CONSTANTS Zones,      \* zone ids
           Vers,       \* version ids (strings)
           NF,         \* [Vers -> 1..]   number of fragments of a version
           ZoneOf,     \* [Vers -> Zones]
+          OwnDefault, \* BOOLEAN: TRUE = every Schedule starts with (and "no schedule" assigns) a list of its own
+                      \* (the repair, /repo fix); FALSE = the one module-level list shared by all (pinned commit)
           NoSchedOn   \* BOOLEAN: deliver "no schedule" replies (the repository's decoder rejects the
                       \* 7-byte RP 0404 ...01FF frame, so no packet can reach that branch: FALSE in MC)
 
@@ -39,7 +41,9 @@ InitSet(f) == [i \in 1..NF[f[1]] |-> IF i = f[2] THEN f ELSE NoFrag]      \* ini
 Pure(ps) == \E v \in Vers : Len(ps) = NF[v] /\ \A i \in 1..Len(ps) : ps[i] = <<v, i>>
 Pre == [shared |-> shared, ref |-> ref, own |-> own, full |-> full, got |-> got, nev |-> nev]
 
-Init == /\ shared = <<NoFrag>> /\ ref = [z \in Zones |-> "shared"] /\ own = [z \in Zones |-> <<>>]
+Init == /\ shared = <<NoFrag>>
+        /\ ref = [z \in Zones |-> IF OwnDefault THEN "own" ELSE "shared"]
+        /\ own = [z \in Zones |-> IF OwnDefault THEN <<NoFrag>> ELSE <<>>]
         /\ full = [z \in Zones |-> "unset"] /\ got = [z \in Zones |-> {}] /\ nev = 0
         /\ h = [pre |-> <<>>, ev |-> <<"init", "-", "-", 0>>]
 
@@ -57,7 +61,8 @@ Receive(z, f) ==
               own2 == IF ref[z] = "own" THEN [own EXCEPT ![z] = cur2] ELSE own
           IN IF \E i \in 1..Len(cur2) : cur2[i] = NoFrag      \* None in payload_set
              THEN /\ shared' = sh2 /\ own' = own2 /\ UNCHANGED <<ref, full>>
-             ELSE IF cur2 = sh2                               \* payload_set == EMPTY_PAYLOAD_SET (by value)
+             ELSE IF cur2 = sh2                               \* payload_set == EMPTY_PAYLOAD_SET (by value; with
+                                                              \* OwnDefault the constant is never written: sh2 = <<NoFrag>>)
              THEN /\ shared' = sh2 /\ own' = own2 /\ full' = [full EXCEPT ![z] = "none"] /\ UNCHANGED ref
              ELSE IF Pure(cur2)                               \* decompresses: the schedule is set
              THEN /\ shared' = sh2 /\ own' = own2 /\ full' = [full EXCEPT ![z] = f[1]] /\ UNCHANGED ref
@@ -67,9 +72,10 @@ Receive(z, f) ==
 (* RP 0404 ... 01FF "zone has no schedule": payload_set = EMPTY_PAYLOAD_SET; _proc_payload_set *)
 NoSched(z) ==
   /\ NoSchedOn
-  /\ ref' = [ref EXCEPT ![z] = "shared"] /\ full' = [full EXCEPT ![z] = "none"]
+  /\ ref' = [ref EXCEPT ![z] = IF OwnDefault THEN "own" ELSE "shared"] /\ full' = [full EXCEPT ![z] = "none"]
+  /\ own' = IF OwnDefault THEN [own EXCEPT ![z] = <<NoFrag>>] ELSE own
   /\ nev' = nev + 1 /\ h' = [pre |-> Pre, ev |-> <<"nosched", z, "-", 0>>]
-  /\ UNCHANGED <<shared, own, got>>
+  /\ UNCHANGED <<shared, got>>
 
 Next == \/ \E z \in Zones, f \in Frags : Receive(z, f)
         \/ \E z \in Zones : NoSched(z)
@@ -81,4 +87,11 @@ Spec == Init /\ [][Next]_vars
 AssembledV(x, z, g) == x \in {"unset", "none"}
                        \/ (x \in Vers /\ ZoneOf[x] = z /\ FragsOf(x) \subseteq g)
 SameOrNone == \A z \in Zones : AssembledV(full[z], z, got[z])
+
+(* With a default list per Schedule (OwnDefault) the module-level constant is never written (the shared list was
+   written in place by one-fragment schedules, after which every Schedule's "empty" set held that fragment and the
+   zone itself reported "no schedule").  Note that a complete set is still not always *reported* at once: a
+   fragment that changes the set's length re-initialises the set without processing it (TLC: [E1,-] + D1 1/1 gives
+   the complete set [D1] with nothing reported) - allowed by clause d ("the same schedule or no schedule"). *)
+DefaultUntouched == OwnDefault => shared = <<NoFrag>>
 =============================================================================
